@@ -252,6 +252,11 @@ pub fn generated_comments() -> &'static (String, String) {
     })
 }
 
+pub fn is_generated_comment(cm: &str) -> bool {
+    let (c, a) = generated_comments();
+    !cm.is_empty() && (cm == c || cm == a)
+}
+
 pub fn comment_class(cm: &str) -> String {
     let (c, a) = generated_comments();
     if !cm.is_empty() && cm == c {
